@@ -847,6 +847,9 @@ class SRPKeyExchange(KeyExchange):
 
     def makeServerKeyExchange(self, sigHash=None):
         """Create SRP version of Server Key Exchange"""
+        if self.clientHello.srp_username is None:
+            raise TLSUnknownPSKIdentity("Client did not provide the SRP "
+                                        "user name")
         srpUsername = bytes(self.clientHello.srp_username)
         #Get parameters from username
         try:
